@@ -3,7 +3,7 @@ import SaModel.Lemmas.C18Assembled
 import SaModel.Lemmas.C01CompSmall
 import SaModel.Lemmas.C01ObsComp
 import SaModel.Props.C01Obs
-import SaModel.Spec.Blame
+import SaModel.Lemmas.C18SpecBridge
 /-
 C18, blame against the SPECIFICATION (`Spec.blameDT`): vocabulary.
 
